@@ -65,6 +65,8 @@ Annotate(secs) == LET sts == RunStates(Init0, secs, 1) IN
                             xl |-> sts[i].xl, xc |-> sts[i].xc]]
 Init == \/ \E h \in Histories, t \in Tols : case = [k |-> "curve", tol |-> t, secs |-> Annotate(h)]
         \/ \E p \in Prims, t \in Tols : case = [k |-> "prim", tol |-> t] @@ p
+        \* fillets also at a coarse tolerance (few segments per corner) in every tier
+        \/ \E r \in {2, 3} : case = [k |-> "prim", tol |-> 1, p |-> "fillet", side |-> 8, r |-> r]
 Next == UNCHANGED case
 
 \* theorems: smooth continuations are tangent continuous whenever the previous control point is
